@@ -343,6 +343,12 @@ pub fn fork_run(desc: &RunDesc) -> RunResult {
             let short = loc.rsplit("/repo/").next().unwrap_or(&loc).split(':').take(2).collect::<Vec<_>>().join(":");
             what = format!("{}; panic before the abort: {}", what, p);
             json.put("panic_at", short);
+            // a panic that cannot unwind: thread-local destructor context (C20) or nested panic
+            let mut props = vec![J::Str("C20".into())];
+            if desc.prop != "C20" {
+                props.push(J::Str(desc.prop.clone()));
+            }
+            json.put("props", J::Arr(props));
             json.put("panic_in_library", loc.contains("/repo/"));
         }
         json.put("detail", what);
